@@ -783,6 +783,26 @@ impl Prop for C03 {
         for p in &m.probes {
             sim::with_core(|c| c.probe(p));
         }
+        // fault kinds that actually fired in this run (result kinds delivered by the scripted peers)
+        sim::with_core(|c| {
+            let mut add: Vec<&str> = vec![];
+            for e in &c.log {
+                if let sim::Event::End { res, depth: 0, .. } = e {
+                    match res.as_str() {
+                        "Error" => add.push("F1"),
+                        "Crash" => add.push("F2"),
+                        "Exit" => add.push("F3"),
+                        _ => {}
+                    }
+                }
+            }
+            if m.probes.iter().any(|p| *p == "handler-crashes" || *p == "handler-exits") {
+                add.push("F5");
+            }
+            for k in add {
+                *c.fired.entry(k.to_string()).or_insert(0) += 1;
+            }
+        });
         let verdict = match res {
             Err(_) => {
                 let p = sim::take_panic().unwrap_or_default();
